@@ -6,6 +6,7 @@ import (
 	"math/big"
 	"math/rand/v2"
 	"strings"
+	"time"
 
 	sdkmath "cosmossdk.io/math"
 	storetypes "cosmossdk.io/store/types"
@@ -926,12 +927,24 @@ func (r *votesRun) stepChurn() {
 		}
 	case 3: // removed oracle unbonds and is re-admitted and re-bonds: a new bonding lifetime
 		if found && r.om[i].removed {
+			// the stake can be withdrawn only once the unbonding period has passed: let it pass
+			if r.rng.IntN(2) == 0 {
+				if _, err := c.EndBlock(22 * 24 * time.Hour); err != nil {
+					r.blockFailed(err)
+					return
+				}
+				if !r.endBlock() {
+					return
+				}
+				before = r.snapshotVotes()
+			}
 			res := c.Msg(&crosschaintypes.MsgUnbondedOracle{ChainName: r.b.Name, OracleAddress: o.Oracle.Bech32()})
 			r.logf("unbond o%d -> %s", i, short(res.ErrString()))
 			if res.OK() {
 				r.res.Count("unbonds", 1)
 			}
-		} else if !found && r.om[i].removed {
+		}
+		if _, still := r.b.K.GetOracle(c.Ctx, o.Oracle.Acc()); !still && r.om[i].removed && (!found || r.rng.IntN(2) == 0) {
 			var keep []*fix.Oracle
 			for j, x := range r.b.Oracles {
 				if j == i || !r.om[j].removed {
